@@ -72,6 +72,7 @@ func runAdhoc(args []string) int {
 	fs.BoolVar(&j.Wasm, "wasm", false, "compile the tinywasm variant as a second package")
 	fs.BoolVar(&j.RealParse, "realparse", false, "do not stub Parser.Parse")
 	fs.IntVar(&j.MaxPaths, "maxpaths", 0, "path cap (0 = none)")
+	fs.StringVar(&j.Sched, "sched", "", "goroutine scheduling policy: fifo (default), lifo, fifo-lastsel, lifo-lastsel")
 	workers := fs.Int("workers", 16, "parallel workers")
 	verbose := fs.Bool("v", false, "verbose")
 	replayN := fs.Int("replay", 0, "number of witness paths to replay natively")
@@ -86,7 +87,7 @@ func runAdhoc(args []string) int {
 	res := explore(ld, &j, *workers, 1, *verbose)
 	res.print(os.Stdout, *verbose)
 	if *replayN > 0 {
-		rp, err := newReplayer(c, ld)
+		rp, err := newReplayer(c, ld, nil)
 		if err != nil {
 			fmt.Fprintln(os.Stderr, "replay build failed:", err)
 			return 2
